@@ -10,13 +10,13 @@ from . import progs as P
 #      around each of {break, continue, return, throw, fatal}, followed by further code
 # =============================================================================================
 CTX = ["loop", "while", "for", "block", "if", "arm", "dflt", "try", "catch", "call", "lit"]
-EXITS = ["break", "continue", "return", "throw", "fatal", "none", "retthrow", "exprthrow"]
+EXITS = ["break", "continue", "return", "throw", "fatal", "none", "retthrow", "exprthrow", "inlinethrow", "tailthrow", "tailbreak", "tailcontinue"]
 LOOPS = ("loop", "while", "for")
 
 
 def legal(ctxs, exit_):
     """break/continue need a loop in the same function"""
-    if exit_ in ("break", "continue"):
+    if exit_ in ("break", "continue", "tailbreak", "tailcontinue"):
         for c in reversed(ctxs):
             if c in LOOPS:
                 return True
@@ -51,6 +51,15 @@ class NestGen:
             # the exception is raised while the operand of `return` is evaluated: the handlers around it are still in force
             self.need_boom = True
             return [Ret(Call("boom")) if in_fn else Ret(Call("boomn"))]
+        if exit_ in ("tailthrow", "tailbreak", "tailcontinue"):
+            # the exit is the LAST EXPRESSION of a block with a local of its own (no `;` after it): the block is left through
+            # its value position
+            self.need_boom = True
+            tail = {"tailthrow": Call("boom"), "tailbreak": If(V("yes"), Block([Break()])), "tailcontinue": If(V("yes"), Block([Continue()]))}[exit_]
+            return [Expr(Block([Let("lv", I(99)), Print(S("tail"), V("lv"))], tail))]
+        if exit_ == "inlinethrow":
+            # ... raised by the expression itself (no call in between), with an operand already evaluated
+            return [Let("half", Bin("+", V("one"), Bin("*", I(2), Block([Expr(Call("throw", S("boom")))], I(1))))), Print(S("half"), V("half"))]
         if exit_ == "exprthrow":
             # ... or in the middle of an expression with an operand already evaluated
             self.need_boom = True
@@ -117,6 +126,8 @@ class NestGen:
         body += [Print(S("keep"), Bin("+", V("keep"), V("one"))),
                  Expr(Try(Block([Expr(Call("throw", S("again")))]), e2, Block([Print(S("c2"), Mem(V(e2), "message"))]))),
                  For(q, Range(I(0), I(2)), Block([Print(S("q"), V(q))])),
+                 # an exception raised and caught inside an expression whose first operand is waiting
+                 Print(S("sum"), Bin("+", I(10), Try(Block([], Bin("+", V("one"), Block([Expr(Call("throw", S("t")))], I(1)))), self.fresh("e"), Block([], I(5))))),
                  Print(S("end"), V("lv"))]
         if ending == "throw":
             # a handler left installed by the nest would wrongly catch this one
@@ -127,7 +138,7 @@ class NestGen:
             fns["boomn"] = Fn([], Block([Expr(Call("throw", S("boom")))]))
         fns["main"] = Fn([], Block(body))
         feats = {"family": "nest", "ctxs": "/".join(ctxs), "exit": exit_, "depth": len(ctxs),
-                 "throw_depth": sum(1 for c in ctxs[_first_try(ctxs):] if c in ("call", "lit")) if exit_ in ("throw", "retthrow", "exprthrow") else -1,
+                 "throw_depth": sum(1 for c in ctxs[_first_try(ctxs):] if c in ("call", "lit")) if exit_ in ("throw", "retthrow", "exprthrow", "inlinethrow", "tailthrow") else -1,
                  "exit_inside_try": _inside(ctxs, "try"), "exit_inside_catch": _inside(ctxs, "catch"),
                  "has_call": "call" in ctxs or "lit" in ctxs, "has_dflt": "dflt" in ctxs, "ending": ending}
         return Program(self.pid, fns, globs=[("zero", I(0)), ("one", I(1)), ("yes", B(True))], feats=feats)
@@ -476,6 +487,19 @@ def template_programs():
         Expr(Asg(Idx(V("xs"), I(0)), I(42))), Expr(Asg(Mem(V("ob"), "count"), I(1), "+=")), Expr(Asg(Mem(V("ob"), "count"), I(2), "*=")),
         Print(V("a"), MCall(V("o"), "unwrap"), V("l"), Mem(V("w"), "e"), MCall(Mem(V("w"), "f"), "unwrap"), V("r"), V("g"), V("ys"), MCall(V("before"), "unwrap")),
         Print(V("xs"), Mem(V("ob"), "count"))]))})
+    # a literal makes a NEW object / list every time it is evaluated
+    mk = Fn(["n"], Block([], Obj(v=V("n"), l=List(V("n")))), "{ v: int, l: [int] }", ["int"])
+    add("literal_fresh_each_time", {"mk": mk, "main": Fn([], Block([
+        Let("a", Call("mk", I(1))), Let("b", Call("mk", I(2))), Print(Mem(V("a"), "v"), Mem(V("b"), "v"), Mem(V("a"), "l"), Mem(V("b"), "l")),
+        Expr(Asg(Mem(V("b"), "v"), I(7))), Expr(MCall(Mem(V("b"), "l"), "push", I(8))), Print(Mem(V("a"), "v"), Mem(V("b"), "v"), Mem(V("a"), "l"), Mem(V("b"), "l")),
+        Let("all", List(Call("mk", I(0)))), For("i", Range(I(1), I(4)), Block([Let("o", Obj(k=V("i"), inner=Obj(z=V("i")))), Expr(MCall(V("all"), "push", Call("mk", V("i")))),
+                                                                          Expr(Asg(Mem(Mem(V("o"), "inner"), "z"), I(1), "+=")), Print(V("o"))])),
+        Print(V("all")), Let("rows", List(List(I(0)))), For("i", Range(I(1), I(3)), Block([Expr(MCall(V("rows"), "push", List(V("i"), V("i"))))])),
+        Expr(Asg(Idx(Idx(V("rows"), I(1)), I(0)), I(50))), Print(V("rows"))]))})
+    # `a || b` / `a && b` do not always evaluate b: they do not diverge because b does
+    add("short_circuit_diverging_right", {
+        "g": Fn(["c"], Block([Expr(Bin("||", V("c"), Block([Ret(I(1))], B(True)))), Print(S("after or")), Expr(Bin("&&", V("c"), Block([Ret(I(2))], B(True)))), Print(S("after and"))], I(3)), "int", ["bool"]),
+        "main": Fn([], Block([Print(Call("g", B(True))), Print(Call("g", B(False)))]))})
     add("fn_values_displayed", {"step": step, "mk": Fn([], Block([], times10), "fn(n: int) -> int"),
         "main": Fn([], Block([Let("f", V("step")), Let("g", times10), Let("h", Call("mk")), Print(V("step"), V("f"), V("g"), V("h")),
                               Print(List(V("f"), V("g"))), Print(Obj(a=V("f"), b=V("h")))]))})
